@@ -291,6 +291,58 @@ pub fn run(ctx: &Ctx) -> i32 {
         }
     }
 
+    // (f) the source path: `lace run file.asm` loads through RunEnvironment::try_from, not from_raw.
+    //     Every one-word data program, and all programs of two and three words over six words, at
+    //     four origins: the machine right after loading must be the reference machine's.
+    {
+        let alpha: [u16; 6] = [0x0000, 0x0001, 0xF025, 0xFFFF, 0x8000, 0x1021];
+        let mut progs: Vec<Vec<u16>> = (0..=0xFFFFu16).map(|w| vec![0x3000, w]).collect();
+        for o in [0x3000u16, 0x0000, 0xFDFE, 0xFFFC] {
+            for a in alpha {
+                for b in alpha {
+                    progs.push(vec![o, a, b]);
+                    for c in alpha {
+                        progs.push(vec![o, a, b, c]);
+                    }
+                }
+            }
+        }
+        let parts = pooled(Some(Env::new(false)), progs.len(), 512, Acc::new, |acc, i| {
+            let image = &progs[i];
+            acc.eval("f/source-path-load");
+            let mut text = format!(".orig x{:04X}\n", image[0]);
+            for w in &image[1..] {
+                text.push_str(&format!(".fill x{w:04X}\n"));
+            }
+            let judge = || -> Option<(String, String)> {
+                let want = Machine::load(image)?;
+                match crate::session::load_source(&text, Env::new(false)) {
+                    Err(stopped) => Some((format!("source-load/panic/{}", stopped.panic_site()), format!("loading the source stopped with {}", stopped.short()))),
+                    Ok(Err(e)) => Some(("source-load/refused".into(), format!("loading the source failed: {e}"))),
+                    Ok(Ok(m)) => machine_diff(&m, &want).map(|d| (format!("source-load/{}", crate::session::machine_diff_kind(&m, &want).unwrap_or("?")), format!("the machine right after loading the source differs from the model: {d}"))),
+                }
+            };
+            let mut v = judge();
+            if v.is_some() {
+                v = confirm_fresh(judge);
+            }
+            match v {
+                None => {
+                    acc.nontrivial();
+                    acc.gate("source-path-loaded");
+                    acc.outcome(format!("f/source-path-load/{}-words", image.len() - 1));
+                }
+                Some((sig, what)) => {
+                    acc.outcome(format!("violation:{sig}"));
+                    acc.violation(format!("C03/{sig}"), what, json!({"source_load": true, "source": text, "image": image}));
+                }
+            }
+        });
+        for p in parts {
+            all.merge(p);
+        }
+    }
+
     // (e) input: programs x all byte streams of length <= 2 over 7 bytes (incl. premature end of input),
     //     and exit statuses of the other ways to stop, on the real binary
     let lace = Lace::new(&ctx.lace_bin, &ctx.scratch);
@@ -372,9 +424,9 @@ pub fn run(ctx: &Ctx) -> i32 {
         ctx,
         all,
         Level { category: "model_checking", bfs: None },
-        "bounded-exhaustive enumeration of images, each run on the real VM under a step budget and on the reference machine for exactly as many instructions: (a) all 65,536 one-word images under both feature flags, (b) all two-word images over an opcode-covering alphabet (128 quick / 2048 thorough words), all three-word images over 24 / 128 words and all four-word images over 8 / 40 words, (c) one image touching its neighbourhood at every origin (stride 16 quick), (d) parameterised structured templates (counted loops, nested JSR/RET, recursive CALL/RETS, self-modifying store, running off the end, computed jumps to xFFFF / below origin / >= xFE00, address wrap, every output trap, spinning under fuel, top of user space, stack gate), (e) three input programs x every byte stream of length <= 2 over 7 bytes incl. non-ASCII and premature end of input, plus all templates, through the real binary (exit status and stdout). Oracle: state right after load; how and after how many instructions the run stops; final registers/PC/CC/all memory; program output. non-trivial = runs that agreed",
+        "bounded-exhaustive enumeration of images, each run on the real VM under a step budget and on the reference machine for exactly as many instructions: (a) all 65,536 one-word images under both feature flags, (b) all two-word images over an opcode-covering alphabet (128 quick / 2048 thorough words), all three-word images over 24 / 128 words and all four-word images over 8 / 40 words, (c) one image touching its neighbourhood at every origin (stride 16 quick), (d) parameterised structured templates (counted loops, nested JSR/RET, recursive CALL/RETS, self-modifying store, running off the end, computed jumps to xFFFF / below origin / >= xFE00, address wrap, every output trap, spinning under fuel, top of user space, stack gate), (e) three input programs x every byte stream of length <= 2 over 7 bytes incl. non-ASCII and premature end of input, plus all templates, through the real binary (exit status and stdout), (f) the source path (RunEnvironment::try_from): every one-word data program and all two- and three-word programs over six words at four origins, machine right after loading vs the model. Oracle: state right after load; how and after how many instructions the run stops; final registers/PC/CC/all memory; program output. non-trivial = runs that agreed",
         true,
-        &["normal-end", "exception-end", "cut-by-fuel", "exit-1", "printed-something", "cli-exit-0", "cli-exit-1", "cli-exit-ee"],
+        &["normal-end", "exception-end", "cut-by-fuel", "exit-1", "printed-something", "cli-exit-0", "cli-exit-1", "cli-exit-ee", "source-path-loaded"],
         &["reference machine follows the measured edition facets (LEA CC, JSRR order)", "IN's prompt/echo and R0 for non-ASCII input bytes are not judged"],
         json!({"fuel": FUEL, "variant": format!("{:?}", measured())}),
     )
@@ -383,6 +435,15 @@ pub fn run(ctx: &Ctx) -> i32 {
 pub fn replay(ctx: &Ctx, case: &Value) -> Option<Option<String>> {
     let image: Vec<u16> = case["image"].as_array()?.iter().map(|v| v.as_u64().unwrap() as u16).collect();
     let stack = case["stack_feature"].as_bool().unwrap_or(false);
+    if case["source_load"].as_bool() == Some(true) {
+        let text = case["source"].as_str()?.to_string();
+        let want = Machine::load(&image)?;
+        return Some(confirm_fresh(|| match crate::session::load_source(&text, Env::new(false)) {
+            Err(stopped) => Some(format!("loading the source stopped with {}", stopped.short())),
+            Ok(Err(e)) => Some(format!("loading the source failed: {e}")),
+            Ok(Ok(m)) => machine_diff(&m, &want),
+        }));
+    }
     if case["cli"].as_bool() == Some(true) {
         let input: Vec<u8> = case["stdin"].as_array()?.iter().map(|v| v.as_u64().unwrap() as u8).collect();
         let lace = Lace::new(&ctx.lace_bin, &ctx.scratch);
